@@ -32,7 +32,9 @@ type cell struct {
 	Shape   string `json:"shape"` // prim, array, object
 }
 
-func (c cell) String() string { return fmt.Sprintf("%s/%s/explode=%v/%s", c.Loc, c.Style, c.Explode, c.Shape) }
+func (c cell) String() string {
+	return fmt.Sprintf("%s/%s/explode=%v/%s", c.Loc, c.Style, c.Explode, c.Shape)
+}
 
 type value struct {
 	Prim   string      `json:"prim,omitempty"`
